@@ -56,6 +56,21 @@ type insAnalyzer struct {
 	// zeroLocals: locals defined once from a fork-zero-valued expression and never re-assigned: they hold
 	// the zero value whenever no Aspect state exists
 	zeroLocals map[types.Object]bool
+	// deadResults: named results that no inherited statement mentions, in a function whose returns all list
+	// their operands: what is stored in them is never observed (set by e1)
+	deadResults map[types.Object]bool
+	// zsKnown: variables holding a known zero/nil right after a ZERO_STATE_NOOP assignment (position of that
+	// assignment and the run of insertions it belongs to)
+	zsKnown map[types.Object]zsFact
+	// zsZeroWrite: assignment statements that (at zero state) store the constant 0 into the listed locals
+	zsZeroWrite map[ast.Stmt]map[types.Object]bool
+	curRun      string
+}
+
+type zsFact struct {
+	run string
+	pos token.Pos
+	val zsVal
 }
 
 func (a *insAnalyzer) calleeName(call *ast.CallExpr) (string, types.Object) {
@@ -243,7 +258,10 @@ func (a *insAnalyzer) effects(n ast.Node) []effect {
 					case strings.HasSuffix(name, ".PreContractCall") || strings.HasSuffix(name, ".PostContractCall"):
 						out = append(out, effect{"call-jp", name, x.Pos()})
 					default:
-						if hes, ok := a.helperEffects(f, x.Pos()); ok {
+						if a.zeroStateSilent(f, x) {
+							// a fork helper whose one feasible path without Aspect state has no effect (zsum.go)
+							out = append(out, effect{"call-pure", name + " (no effect at zero Aspect state)", x.Pos()})
+						} else if hes, ok := a.helperEffects(f, x.Pos()); ok {
 							out = append(out, hes...)
 						} else {
 							out = append(out, effect{"call-other", name, x.Pos()})
@@ -444,6 +462,14 @@ func (a *insAnalyzer) zeroStateFalse(cond ast.Expr) bool {
 			return a.zeroStateFalse(x.X) && a.zeroStateFalse(x.Y)
 		case token.NEQ, token.EQL, token.GTR, token.LSS:
 			l, r := ast.Unparen(x.X), ast.Unparen(x.Y)
+			// a variable just assigned nil by a zero-state no-op helper call of the same run of insertions
+			if x.Op == token.NEQ {
+				if id, ok := l.(*ast.Ident); ok && a.info.Types[r].IsNil() {
+					if f, known := a.zsKnown[a.info.Uses[id]]; known && f.val.kind == "nil" && f.run == a.curRun && f.run != "" && f.pos <= x.Pos() {
+						return true
+					}
+				}
+			}
 			// normalise: fork-only thing on the left
 			if !a.isForkZeroValued(l) && a.isForkZeroValued(r) {
 				l, r = r, l
@@ -634,6 +660,200 @@ func (a *insAnalyzer) pureLocalDefine(st ast.Stmt) bool {
 	return true
 }
 
+// zeroAtZeroState: e is 0 whenever no Aspect state exists: the constant 0, (the length of) a fork-only field, or the
+// result of a fork helper whose zero-state summary returns the constant 0.
+func (a *insAnalyzer) zeroAtZeroState(e ast.Expr) bool {
+	e = ast.Unparen(e)
+	if tv, ok := a.info.Types[e]; ok && tv.Value != nil {
+		return tv.Value.ExactString() == "0"
+	}
+	if a.isForkZeroValued(e) {
+		return true
+	}
+	call, ok := e.(*ast.CallExpr)
+	if !ok || call.Ellipsis.IsValid() {
+		return false
+	}
+	f, _ := typeutil.Callee(a.info, call).(*types.Func)
+	if f == nil || f.Pkg() == nil {
+		return false
+	}
+	pair := -1
+	for i := range pkgPairs {
+		if forkPath(i) == f.Pkg().Path() {
+			pair = i
+		}
+	}
+	rel := relNameOfFunc(f)
+	if pair < 0 || rel == "" || a.w.funcIdx[refPath(pair)][rel] != nil {
+		return false
+	}
+	fn := a.w.Func(forkPath(pair), rel)
+	if fn == nil || fn.Blocks == nil {
+		return false
+	}
+	off := 0
+	if fn.Signature.Recv() != nil {
+		off = 1
+	}
+	if len(call.Args)+off != len(fn.Params) {
+		return false
+	}
+	zp := map[int]bool{}
+	for i, arg := range call.Args {
+		if a.isForkZeroValued(arg) {
+			zp[i+off] = true
+		}
+	}
+	sum := a.w.zeroStateSummary(fn, zp, a.fo)
+	return sum != nil && len(sum.results) == 1 && sum.results[0].kind == "int" && sum.results[0].n == 0
+}
+
+// zeroStateSilent: the call of the fork-only function f has a zero-state summary (no effect on its feasible path)
+// with the arguments that are fork-zero-valued taken as zero.
+func (a *insAnalyzer) zeroStateSilent(f *types.Func, call *ast.CallExpr) bool {
+	if f.Pkg() == nil || call.Ellipsis.IsValid() {
+		return false
+	}
+	pair := -1
+	for i := range pkgPairs {
+		if forkPath(i) == f.Pkg().Path() {
+			pair = i
+		}
+	}
+	rel := relNameOfFunc(f)
+	if pair < 0 || rel == "" || a.w.funcIdx[refPath(pair)][rel] != nil {
+		return false
+	}
+	fn := a.w.Func(forkPath(pair), rel)
+	if fn == nil || fn.Blocks == nil {
+		return false
+	}
+	off := 0
+	if fn.Signature.Recv() != nil {
+		off = 1
+	}
+	if len(call.Args)+off != len(fn.Params) {
+		return false
+	}
+	zp := map[int]bool{}
+	for i, arg := range call.Args {
+		if a.isForkZeroValued(arg) {
+			zp[i+off] = true
+		}
+	}
+	return a.w.zeroStateSummary(fn, zp, a.fo) != nil
+}
+
+// zeroStateNoop: as is `lhs… = h(args…)` (or :=) where the fork-only helper h, followed on its one feasible
+// path at zero Aspect state, has no effect and returns, for every left-hand side, either the argument that
+// is already stored there, or a value for a location the reference never observes (a fork local, or a named
+// result that is dead in this function).
+func (a *insAnalyzer) zeroStateNoop(as *ast.AssignStmt, run string) (bool, string) {
+	call, ok := ast.Unparen(as.Rhs[0]).(*ast.CallExpr)
+	if !ok || call.Ellipsis.IsValid() {
+		return false, ""
+	}
+	f, _ := typeutil.Callee(a.info, call).(*types.Func)
+	if f == nil || f.Pkg() == nil {
+		return false, ""
+	}
+	pair := -1
+	for i := range pkgPairs {
+		if forkPath(i) == f.Pkg().Path() {
+			pair = i
+		}
+	}
+	rel := relNameOfFunc(f)
+	if pair < 0 || rel == "" || a.w.funcIdx[refPath(pair)][rel] != nil {
+		return false, ""
+	}
+	fn := a.w.Func(forkPath(pair), rel)
+	if fn == nil || fn.Blocks == nil {
+		return false, ""
+	}
+	// arguments: effect-free; which of them are zero-valued
+	args := call.Args
+	off := 0
+	if fn.Signature.Recv() != nil {
+		off = 1
+		if sel, isSel := call.Fun.(*ast.SelectorExpr); isSel {
+			for _, e := range a.effects(&ast.ExprStmt{X: sel.X}) {
+				if e.kind != "call-pure" {
+					return false, ""
+				}
+			}
+		}
+	}
+	if len(args)+off != len(fn.Params) {
+		return false, ""
+	}
+	zp := map[int]bool{}
+	for i, arg := range args {
+		for _, e := range a.effects(&ast.ExprStmt{X: arg}) {
+			if e.kind != "call-pure" {
+				return false, ""
+			}
+		}
+		if a.isForkZeroValued(arg) {
+			zp[i+off] = true
+		}
+	}
+	sum := a.w.zeroStateSummary(fn, zp, a.fo)
+	if sum == nil || len(sum.results) != len(as.Lhs) {
+		return false, ""
+	}
+	c := &astCanon{info: a.info}
+	known := map[types.Object]zsVal{}
+	zeroWrites := map[types.Object]bool{}
+	for i, l := range as.Lhs {
+		id, isId := ast.Unparen(l).(*ast.Ident)
+		if !isId {
+			return false, ""
+		}
+		if id.Name == "_" {
+			continue
+		}
+		o := a.info.Uses[id]
+		if o == nil {
+			o = a.info.Defs[id]
+		}
+		res := sum.results[i]
+		unobserved := o != nil && (a.fkLocals[o] || a.info.Defs[id] != nil || a.deadResults[o])
+		switch res.kind {
+		case "param":
+			k := res.param - off
+			if k >= 0 && k < len(args) && c.expr(args[k]) == c.expr(l) {
+				continue // the location keeps its value
+			}
+			if !unobserved {
+				return false, ""
+			}
+		case "int", "nil", "bool", "zero":
+			if !unobserved {
+				return false, ""
+			}
+			known[o] = res
+			if res.kind == "int" && res.n == 0 {
+				zeroWrites[o] = true
+			}
+		default:
+			if !unobserved {
+				return false, ""
+			}
+		}
+	}
+	if a.zsKnown == nil {
+		a.zsKnown = map[types.Object]zsFact{}
+		a.zsZeroWrite = map[ast.Stmt]map[types.Object]bool{}
+	}
+	for o, val := range known {
+		a.zsKnown[o] = zsFact{run: run, pos: as.End(), val: val}
+	}
+	a.zsZeroWrite[as] = zeroWrites
+	return true, "the fork helper " + rel + " has no effect on its one feasible path without Aspect state and hands back what was already stored (or values only fork code observes)"
+}
+
 // zeroStateTrue: is cond certainly true when every fork-only field holds its zero value?
 func (a *insAnalyzer) zeroStateTrue(cond ast.Expr) bool {
 	cond = ast.Unparen(cond)
@@ -744,6 +964,29 @@ func (a *insAnalyzer) classifyInsertion(in *Insertion) *InsVerdict {
 		node = in.Case
 	}
 	v := &InsVerdict{Pos: node.Pos(), Text: stmtText(a.w, a.info, node)}
+	a.curRun = in.Run
+	// what an earlier zero-state no-op call left in a variable is forgotten as soon as an insertion assigns it again
+	if len(a.zsKnown) > 0 {
+		ast.Inspect(node, func(n ast.Node) bool {
+			switch x := n.(type) {
+			case *ast.AssignStmt:
+				for _, l := range x.Lhs {
+					if id, ok := ast.Unparen(l).(*ast.Ident); ok {
+						delete(a.zsKnown, a.info.Uses[id])
+					}
+				}
+			case *ast.IncDecStmt:
+				if id, ok := ast.Unparen(x.X).(*ast.Ident); ok {
+					delete(a.zsKnown, a.info.Uses[id])
+				}
+			case *ast.UnaryExpr:
+				if id, ok := ast.Unparen(x.X).(*ast.Ident); ok && x.Op == token.AND {
+					delete(a.zsKnown, a.info.Uses[id])
+				}
+			}
+			return true
+		})
+	}
 	// (1) constructs that never execute at zero state
 	switch s := in.Stmt.(type) {
 	case *ast.RangeStmt:
@@ -785,6 +1028,33 @@ func (a *insAnalyzer) classifyInsertion(in *Insertion) *InsVerdict {
 	if in.AbsorbRef >= 0 {
 		v.Class, v.OK, v.Why = "FORK_GUARD", false, "an inserted `if` wraps reference statements"
 		return v
+	}
+	// (1a) `x = append(x, z...)` with z zero-valued without Aspect state: x keeps its value
+	if as, ok := in.Stmt.(*ast.AssignStmt); ok && in.Case == nil && as.Tok == token.ASSIGN && len(as.Lhs) == 1 && len(as.Rhs) == 1 {
+		if call, isCall := ast.Unparen(as.Rhs[0]).(*ast.CallExpr); isCall && call.Ellipsis.IsValid() && len(call.Args) == 2 {
+			if id, isId := call.Fun.(*ast.Ident); isId {
+				if b, isB := a.info.Uses[id].(*types.Builtin); isB && b.Name() == "append" {
+					c := &astCanon{info: a.info}
+					zero := a.isForkZeroValued(call.Args[1])
+					if zid, isZ := ast.Unparen(call.Args[1]).(*ast.Ident); isZ && !zero {
+						if f, known := a.zsKnown[a.info.Uses[zid]]; known && f.val.kind == "zero" && f.run == in.Run && f.run != "" {
+							zero = true
+						}
+					}
+					if zero && c.expr(as.Lhs[0]) == c.expr(call.Args[0]) {
+						v.Class, v.OK, v.Why = "APPEND_ZERO", true, "appends a slice that is empty without Aspect state: the destination keeps its value"
+						return v
+					}
+				}
+			}
+		}
+	}
+	// (1b) `x, y, … = h(…)` with h a fork helper that does nothing at zero state (zsum.go)
+	if as, ok := in.Stmt.(*ast.AssignStmt); ok && in.Case == nil && len(as.Rhs) == 1 {
+		if okZ, why := a.zeroStateNoop(as, in.Run); okZ {
+			v.Class, v.OK, v.Why = "ZERO_STATE_NOOP", true, why
+			return v
+		}
 	}
 	// (2) unconditional insertion: only fork-owned writes, only reviewed callees, no control transfer
 	es := a.effects(node)
